@@ -283,7 +283,7 @@ func TestC11RepeatOracleVerdicts(t *testing.T) {
 // forgets the type of a repeated whole float64 is caught.
 func TestC11RepeatStream(t *testing.T) {
 	p := c11{}
-	cases := c11RepCases(rand.New(rand.NewSource(5)), "quick")
+	cases := c11RepOnlyCases(rand.New(rand.NewSource(5)), "quick")
 	if len(cases) < 800 {
 		t.Fatalf("only %d cases", len(cases))
 	}
